@@ -507,7 +507,8 @@ class DFState:
                     continue
                 if data <= set(i.on_values):
                     return i
-                elif data > set(i.on_values):
+                elif data & set(i.on_values):
+                    # only some of the symbols are listed on this transition: they do not all follow the same one
                     return None
             return self[DFTransition.Else]
         else:
